@@ -101,7 +101,18 @@ def converter_only_kinds(ctx, model):
                 )
 
 
+def converter_dict_subclasses(ctx):
+    """TAB.convert.dict-isinstance (C08, C02, C01): the legacy converter recognises dict ARGUMENTS with isinstance,
+    so that OrderedDict/defaultdict arguments have the keys in their values resolved like plain dicts."""
+    f = ctx.model.module("dask/_task_spec.py").func("convert_legacy_task")
+    loops = [l for l in ast.walk(f) if isinstance(l, ast.For) and eqv(l.iter, "args")]
+    tests = [n for l in loops for n in ast.walk(l) if isinstance(n, ast.If) and "dict" in unparse(n.test) and any(isinstance(c, ast.Call) and call_name(c) == "Dict" for c in ast.walk(n))]
+    ok = len(tests) == 1 and eqv(tests[0].test, "isinstance(a, dict)")
+    ctx.ob("TAB.convert.dict-isinstance", f, "convert_legacy_task: `isinstance(a, dict)` selects the Dict(...) conversion of an argument", ok, "" if ok else "a dict subclass argument is passed through unconverted: the task no longer depends on the keys in its values, starts before they exist and receives the literal key strings")
+
+
 def check(ctx):
+    converter_dict_subclasses(ctx)
     model = ctx.model
     ts = model.module(TS)
     core = model.module(CORE)
